@@ -81,6 +81,11 @@ func (comp *Compiler) Compile(stmts []*gripql.GraphStatement, opts *gdbi.Compile
 		return cmpl.Compile(stmts, opts)
 	}
 
+	// reject what the core compiler rejects (e.g. a traversal that does not start with V() or E())
+	if err := core.Validate(stmts, opts); err != nil {
+		return &Pipeline{}, fmt.Errorf("invalid statments: %s", err)
+	}
+
 	procs := []gdbi.Processor{}
 	query := mongo.Pipeline{}
 	startCollection := ""
